@@ -71,6 +71,8 @@ Checks(x) ==
   [n |-> "C05_Schema_Isolated", v |-> ~render => (\A a, b \in DOMAIN o.schema : o.schema[a] = o.schema[b]) /\ o.dErr <= 1],
   [n |-> "C05_Schema_Outcome", v |-> ~render => (Len(o.schema) = 3 /\ (c.schema = "local" => \A a \in DOMAIN o.schema : o.schema[a] = "accept"))],
   (* ---- C08: every document in exactly one place, in order ----------------------------- *)
+  \* NOTES.txt (at any depth) and partials neither reach the manifest nor make the operation fail
+  [n |-> "C08_NoFailure",    v |-> (render /\ r.err = "none") => (ok /\ o.uninstErr = "")],
   [n |-> "C08_Partition",    v |-> (render /\ ok) => C08_Partition(c, man, hks)],
   [n |-> "C08_Classes",      v |-> (render /\ ok) => C08_Classes(c, man, hks)],
   [n |-> "C08_NothingElse",  v |-> (render /\ ok) => C08_NothingElse(c, man, hks)],
